@@ -9,6 +9,7 @@ import Mahotas.Proofs.C19LbpHist
 import Mahotas.Proofs.C19Integral
 import Mahotas.Proofs.C19Haralick
 import Mahotas.Proofs.C19Zernike
+import Mahotas.Proofs.C19Necklace
 namespace Mahotas.C19
 open Mahotas Mahotas.Generated
 
@@ -220,6 +221,26 @@ theorem C19_zernike_rot90 {α : Type} [Field α] [LinearOrder α] (sqrt : α →
   refine List.map_congr_left fun nl _ => ?_
   rw [zernikeZ_rot90_normSq]
 
+/-- **C19-T3 (LBP: the bins are the rotation classes — binary necklaces).** `pivots P` are the codes `c = map c`
+among all `2^P` codes; the compressed histogram `lbpCompress` has exactly one bin per pivot, whatever the pixel codes.
+For **every** `P ≥ 1` (no bound): two `P`-bit codes are mapped to the same bin iff they are cyclic rotations of one
+another (`RotEq`); the pivots are pairwise distinct and every rotation class contains exactly one pivot (a system of
+distinct representatives); hence the number of bins equals the number of rotation classes of `P`-bit codes
+(`Nat.card` of the quotient of `{v // v < 2^P}` by rotation — the equivalence `classEquiv` is `⟦v⟧ ↦ map v`).
+For `1 ≤ P ≤ 12` (kernel evaluation of the model's `lbpMap` on all `2^P` codes) this number times `P` equals
+Burnside's closed form `Σ_{d ∣ P} φ(d) · 2^{P/d}` (Mathlib's `Nat.divisors`, `Nat.totient`): 2, 3, 4, 6, 8, 14, 20, 36,
+60, 108, 188, 352 bins. The general closed form (Burnside's lemma for the cyclic group) is not proved. -/
+theorem C19_lbp_bins_count :
+    (∀ P mapped, (lbpCompress P mapped).length = (pivots P).length) ∧
+    (∀ P v w, 1 ≤ P → v < 2 ^ P → w < 2 ^ P → (lbpMap P v = lbpMap P w ↔ RotEq P v w)) ∧
+    (∀ P, (pivots P).Nodup) ∧
+    (∀ P v, 1 ≤ P → v < 2 ^ P → ∃! c, c ∈ pivots P ∧ RotEq P v c) ∧
+    (∀ P (hP : 1 ≤ P), Nat.card (Quotient (rotSetoid P hP)) = (pivots P).length) ∧
+    (∀ P, 1 ≤ P → P ≤ 12 → (pivots P).length * P = ∑ d ∈ P.divisors, Nat.totient d * 2 ^ (P / d)) :=
+  ⟨lbpCompress_length, fun P v w hP hv hw => lbpMap_eq_iff P v w hP hv hw, pivots_nodup,
+   fun P v hP hv => pivot_unique P v hP hv, card_classes,
+   fun P h1 h2 => (pivots_closed_form P h1 h2).trans (necklaceSum_mathlib P h1 h2)⟩
+
 /-! non-vacuity -/
 example : coocCount [2, 3] (fun p => ([0, 1, 1, 1, 0, 1].getD (ravelI [2, 3] p) 0)) [0, 1] 1 1 = 1 ∧
     coocSym [2, 3] (fun p => ([0, 1, 1, 1, 0, 1].getD (ravelI [2, 3] p) 0)) [0, 1] 0 1 = 3 := by decide
@@ -242,3 +263,5 @@ example :
     zernikeZ (0 : Rat) 1 Nat.cast (fun x => x) (fun d k => d ^ k) (1 / 1000000000) 3 3 2
       (fun i j => im j (3 - 1 - i)) (3 - 1 - 1) (1 / 2) 2 1 1 = (1 / 24, -1 / 8) := by
   decide +kernel
+example : pivots 4 = [0, 1, 3, 5, 7, 15] ∧ (pivots 8).length = 36 ∧ RotEq 4 0b0110 0b0011 := by
+  refine ⟨by decide +kernel, by decide +kernel, ⟨1, by decide⟩⟩
